@@ -431,6 +431,12 @@ theorem blind_curvAbsK (g : GOps V) (K : Kernel V) : Blind (curvAbsK g K : M (Wo
   unfold curvAbsK
   exact blind_bind blind_size (fun n => blind_foldL _ (fun s i => blind_bind (blind_posDistT g K _ _) (fun _ => blind_pure _)) _ _)
 
+theorem runCol_ok (k : Nat) (m : M (World V) (List V)) (w w' : World V) (r : List V) (hk : k < w.trks.length)
+    (e : m { w with cur := k } = (.ok r, w')) : runCol k m w = (.ok (.col r), w') := by
+  unfold runCol
+  rw [if_neg (Nat.not_le.mpr hk), e]
+  rfl
+
 theorem runCol_frame (k : Nat) (m : M (World V) (List V)) (hm : Keeps m) (w : World V) :
     geom (runCol k m w).2 = geom w ∧ (runCol k m w).2.trks.map (·.ids) = w.trks.map (·.ids) := by
   unfold runCol
